@@ -125,7 +125,10 @@ def history(rng, tier, contract=True, msgs=False, http=False):
             # them; a flow which starts with this message has, in most cases, its first record NOT at the end
             k0 = rng.choice(keys)
             family = [k for k in keys if AG.is_v6(k) == AG.is_v6(k0)]
-            ks = [k0] + [rng.choice(family) if rng.random() < 0.8 else k0 for _ in range(rng.randint(1, 3))]
+            # (one message in eight is LONG: 13..40 records in which a few five-tuples alternate, each several times -
+            # their records must be aggregated in the order of the message)
+            more = rng.randint(12, 39) if rng.random() < 0.125 else rng.randint(1, 3)
+            ks = [k0] + [rng.choice(family) if rng.random() < 0.8 else k0 for _ in range(more)]
             if ks[-1] not in kinds and ks.count(ks[-1]) == 1 and rng.random() < 0.7:
                 ks.insert(rng.randrange(len(ks) - 1), ks.pop())
             recs = AG.sprinkle_absent([rec_for(k) for k in ks], keep=(AG.EGRESS,))
